@@ -1,7 +1,6 @@
 package cli
 
 import (
-	"os"
 	"encoding/json"
 	"fmt"
 	"sort"
@@ -305,33 +304,11 @@ func (s *c17w) effectiveRef(skip map[*cmd]bool) map[string]packet.QOS {
 	return ref
 }
 
-// tableExplained: the broker's table equals the fold of the calls made so far, where a call whose future was cancelled and
-// whose packet never reached the broker may or may not have been recorded by the service (its dispatch failed half-way).
+// tableExplained: the broker's table equals the fold of the calls made so far. A call whose dispatch failed at the write
+// still counts: the service records a subscription (or its removal) when the dispatcher takes the command, before the
+// packet is written, so the next resubscription carries it - anything else would lose a call the user made.
 func (s *c17w) tableExplained() bool {
-	var unc []*cmd
-	for _, c := range s.cmds {
-		if !c.dropped && !c.seen && c.w != nil && c.w.resolved && c.w.err != nil && c.kind != "pub" {
-			unc = append(unc, c)
-		}
-	}
-	if len(unc) > 10 {
-		unc = unc[:10]
-	}
-	if os.Getenv("C17_STRICT") != "" {
-		unc = nil
-	}
-	for mask := 0; mask < 1<<len(unc); mask++ {
-		skip := map[*cmd]bool{}
-		for i, c := range unc {
-			if mask&(1<<i) != 0 {
-				skip[c] = true
-			}
-		}
-		if subsStr(s.subs) == subsStr(s.effectiveRef(skip)) {
-			return true
-		}
-	}
-	return false
+	return subsStr(s.subs) == subsStr(s.effectiveRef(nil))
 }
 
 func (s *c17w) cmdNames() []string {
@@ -597,7 +574,8 @@ func runC17(r *report.Report) {
 	}
 	cfgs := []c{{"failures-depth6", c17params{Depth: 6, Faults: true}, 0}, {"stops-depth6", c17params{Depth: 6, Stops: true}, 0}, {"all-depth5", c17params{Depth: 5, Faults: true, Stops: true}, 0}, {"reordered", c17params{Depth: 4, Stops: true}, 1}}
 	if r.Tier == "thorough" {
-		cfgs = []c{{"failures-depth8", c17params{Depth: 8, Faults: true}, 0}, {"stops-depth8", c17params{Depth: 8, Stops: true}, 0}, {"all-depth7", c17params{Depth: 7, Faults: true, Stops: true}, 0}, {"reordered", c17params{Depth: 5, Faults: true, Stops: true}, 1}, {"reordered2", c17params{Depth: 4, Stops: true}, 2}}
+		// (sized to the 40 min budget on 16 workers; depth 8 with failures alone is 70 M histories and does not fit)
+		cfgs = []c{{"stops-depth7", c17params{Depth: 7, Stops: true}, 0}, {"all-depth6", c17params{Depth: 6, Faults: true, Stops: true}, 0}, {"reordered", c17params{Depth: 5, Faults: true, Stops: true}, 1}, {"reordered2", c17params{Depth: 4, Stops: true}, 2}, {"failures-depth7", c17params{Depth: 7, Faults: true}, 0}}
 	}
 	for _, cf := range cfgs {
 		st := explore.Explore(explore.Config{Harness: "C17.hist", Params: mk(cf.p), Bound: cf.bound, Workers: report.Workers(), Deadline: r.Deadline()})
